@@ -23,7 +23,12 @@ open H3.Iso (Peer StreamEv HEv Dig digest follows peersOf fsScript fsOf obsOf AP
     token; the scheme, the authority and the path-and-query of the target are values the crate's
     own parsers produced (what an `http::Uri` holds; `https` and `/`, which h3 fills in, included);
     the `Protocol` extension is one h3 knows; a target without an authority is completed by a `Host`
-    value that is an authority; the submitted `Host` values are all the same (D-12e).  Responses:
+    value that is an authority; the submitted `Host` values are all the same (D-12e); and — what the
+    CALLER owes since the D-12g fix, because `http::Uri` accepts `1http://…`, `h~p://…` and
+    `https://a@b@c/` as the crate's `Scheme` / `Authority` parsers do — the scheme of the target is an
+    RFC 3986 scheme and its authority has at most one `@` and a numeric port (`schemeSyntax`,
+    `authoritySyntax`: what the receiving h3 checks; the `https` default and a path-and-query of the
+    crate always pass, `HttpRoundTrip.path_print_no_fragment`).  Responses:
     the status is 100…999 (`http::StatusCode`). -/
 inductive HeadValues (H : Http) : Role → Message → Prop where
   | request (m : Message) (method : Bytes) (uri : UriParts) (ext : Option Bytes) :
@@ -35,6 +40,8 @@ inductive HeadValues (H : Http) : Role → Message → Prop where
       (∀ x, (Pseudo.request method uri ext).protocol = some x → parseProtocol x = some x) →
       (uri.authority = none → ∀ hv, hmGet (mapOf m.headers) nHost = some hv → H.parseAuthority hv = some hv) →
       allFirst (hmGroup (mapOf m.headers) nHost) = true →
+      (∀ s, uri.scheme = some s → schemeSyntax s = true) →
+      (∀ a, uri.authority = some a → authoritySyntax a = true) →
       HeadValues H .server m
   | response (m : Message) (status : Nat) :
       m.head = .response status → 100 ≤ status → status ≤ 999 → HeadValues H .client m
@@ -59,9 +66,11 @@ theorem pseudoBack_of_laws (H : Http) (L : HttpLaws H) (R : HttpRoundTrip H) (me
     (hs : ∀ s, (Pseudo.request method uri ext).scheme = some s → ∃ w, H.parseScheme w = some s)
     (ha : ∀ a, uri.authority = some a → ∃ w, H.parseAuthority w = some a)
     (hp : ∀ x, (Pseudo.request method uri ext).path = some x → ∃ w, H.parsePath w = some x)
-    (hx : ∀ x, (Pseudo.request method uri ext).protocol = some x → parseProtocol x = some x) :
+    (hx : ∀ x, (Pseudo.request method uri ext).protocol = some x → parseProtocol x = some x)
+    (hss : ∀ s, uri.scheme = some s → schemeSyntax s = true)
+    (has : ∀ a, uri.authority = some a → authoritySyntax a = true) :
     PseudoBack H (Pseudo.request method uri ext) := by
-  refine ⟨?_, ?_, ?_, ?_, ?_, hx⟩
+  refine ⟨?_, ?_, ?_, ?_, ?_, hx, ?_, has, ?_⟩
   · intro v hv
     have : (Pseudo.request method uri ext).method = some method := rfl
     rw [this] at hv; cases hv; exact hm
@@ -79,6 +88,20 @@ theorem pseudoBack_of_laws (H : Http) (L : HttpLaws H) (R : HttpRoundTrip H) (me
   · intro st h
     have : (Pseudo.request method uri ext).status = none := rfl
     rw [this] at h; cases h
+  · -- the scheme h3 writes is the URI's own, or the `https` default
+    intro s h
+    have hs' : (Pseudo.request method uri ext).scheme =
+        if method = mCONNECT ∧ (Pseudo.request method uri ext).protocol = none then none
+        else some (uri.scheme.getD sHttps) := rfl
+    rw [hs'] at h
+    split at h
+    · cases h
+    · cases hu : uri.scheme with
+      | none => rw [hu] at h; cases h; decide
+      | some s' => rw [hu] at h; cases h; exact hss s' hu
+  · intro x h
+    obtain ⟨w, hw⟩ := hp x h
+    exact R.path_print_no_fragment w x hw
 
 /-- `Pseudo::request` sends `:scheme` and `:path` together — or neither (plain CONNECT) -/
 theorem pseudo_scheme_path (method : Bytes) (uri : UriParts) (ext : Option Bytes) :
@@ -96,8 +119,8 @@ theorem headOk_of_values (H : Http) (L : HttpLaws H) (R : HttpRoundTrip H) (role
     have : expectedHead m = .response status (mapOf m.headers) := by unfold expectedHead; rw [hm]
     rw [this]
     exact HeadOk.response m status hm h1 h2
-  | request m method uri ext hm hmeth hs ha hp hx hhost hall =>
-    have hpb := pseudoBack_of_laws H L R method uri ext hmeth hs ha hp hx
+  | request m method uri ext hm hmeth hs ha hp hx hhost hall hss has =>
+    have hpb := pseudoBack_of_laws H L R method uri ext hmeth hs ha hp hx hss has
     -- the effective authority parses to itself
     have hauth : H.parseAuthority (effAuthority uri.authority (hmGet (mapOf m.headers) nHost)) =
         some (effAuthority uri.authority (hmGet (mapOf m.headers) nHost)) := by
